@@ -296,8 +296,38 @@ func Classify(a *inssvc.Analysis, o *evid.Obs) {
 	if swap {
 		o.Tag("swap-separated-requests")
 	}
+	if tr.H.Cfg.AsyncNode {
+		o.Tag("cfg:node-async_insert=on")
+	} else {
+		o.Tag("cfg:node-async_insert=off")
+	}
 	for _, rq := range tr.Reqs {
 		if rq.HTTP {
+			switch rq.Hdr.Async {
+			case "":
+			case "0", "1":
+				o.Tag("hdr:X-Async-Insert=" + rq.Hdr.Async)
+				if rq.Hdr.Async == "1" && !tr.H.Cfg.AsyncNode {
+					o.Tag("hdr:X-Async-Insert=1-on-sync-node")
+				}
+			default:
+				o.Tag("hdr:X-Async-Insert=junk")
+			}
+			if rq.Hdr.TTL != "" {
+				o.Tag("hdr:X-Ttl-Days")
+			}
+			if rq.Hdr.Meta != "" {
+				o.Tag("hdr:X-Scope-Meta")
+			}
+			if rq.Hdr.DSN != "" {
+				o.Tag("hdr:X-CH-DSN")
+			}
+			if rq.Hdr.Enc != "" {
+				o.Tag("hdr:Content-Encoding=" + rq.Hdr.Enc)
+				if d, st, _, _ := rq.Result(); d && rq.Hdr.Enc == "gzip" && st/100 == 2 {
+					o.Tag("hdr:Content-Encoding=gzip:2xx")
+				}
+			}
 			o.Tag("http:" + rq.Proto)
 			if d, st, _, _ := rq.Result(); d {
 				o.Tag(fmt.Sprintf("status:%dxx", st/100))
